@@ -289,6 +289,9 @@ IMPLS: Dict[str, Callable[..., Any]] = {
     "tup": lambda *xs: xs,
     "none_or_item": lambda *xs: None if builtins.sum(_k(x) for x in xs) % 2 else xs[0],  # results may be None
     "lookalike_result": lambda *xs: Lookalike(builtins.sum(_k(x) for x in xs)),  # not awaitable, only looks like it
+    # a plain function whose FIRST result is a plain value (so it is a synchronous callable) and whose later results are
+    # objects that happen to be awaitable: results like any other, handed on as they are
+    "later_payload": lambda *xs: 0 if (isinstance(xs[0], Item) and xs[0].uid[-1] == 0) else AwaitablePayload(("late", _k(xs[0]))),
     "falsy_result": lambda *xs: ("", 0, (), None)[builtins.sum(_k(x) for x in xs) % 4],
     # binary reductions
     "add": lambda a, b: a + b,
